@@ -414,7 +414,7 @@ def bounded_wrap(tier, seed):
     st = Stand('C01.wrap.face-adjacent', 'face-adjacent doubles (0, +-2^-1074 .. +-2^-52, 1-2^-53, 1, -1, >1, negative) in random cells, '
                '4-frame 2-atom trajectories, integer shifts in [-3,3]', 'deterministic list + seeded random mixes; every case non-trivial')
     special = [0.0, -0.0, 1.0, -1.0, 1 - 2 ** -53, 2 ** -53, -2 ** -53, -2 ** -54, -1e-17, -1e-16, 1e-17, 5e-324, -5e-324, -2 ** -60, 2.0, -2.0,
-               0.5, -0.5, 0.9999999999999999, 1.0000000000000002, 3.75, -3.25]
+               0.5, -0.5, 0.9999999999999999, 1.0000000000000002, 3.75, -3.25, 0.999995, -3.000004, 1 - 1e-7, 2 - 3e-6, 1e-6, -1e-6, 0.99999]
     rng = np.random.default_rng(seed + 101)
     n = 60 if tier == 'quick' else 2000
     for c in range(n):
